@@ -447,6 +447,9 @@ pub(crate) struct CrashOutcome {
     pub crashed_at_step: Option<usize>,
     /// the store could not be reopened / the start-up sequence panicked
     pub reopen_panic: Option<PanicRec>,
+    /// write points of the recovery after the first crash (when it ran to quiescence)
+    pub recovery_writes: u64,
+    pub second_crash_reached: bool,
 }
 
 /// Runs the scenario with the given deviations; if `crash_at` is Some(k) the k-th write point
@@ -458,6 +461,19 @@ pub(crate) fn run_with_crash(
     sc: &dyn Scenario,
     devs: &[(usize, Dev)],
     crash_at: Option<u64>,
+    count_init_writes: bool,
+) -> (Option<Sim>, CrashOutcome) {
+    run_with_crashes(sc, devs, crash_at, None, count_init_writes)
+}
+
+/// Like `run_with_crash`, with an optional second crash at the j-th write point of the recovery
+/// (counted from the restart after the first crash). `CrashOutcome::recovery_writes` is the number
+/// of write points of the (first) recovery when no second crash is armed.
+pub(crate) fn run_with_crashes(
+    sc: &dyn Scenario,
+    devs: &[(usize, Dev)],
+    crash_at: Option<u64>,
+    second_crash_at: Option<u64>,
     count_init_writes: bool,
 ) -> (Option<Sim>, CrashOutcome) {
     install_crash_hook();
@@ -477,6 +493,8 @@ pub(crate) fn run_with_crash(
                     writes: writes_seen(),
                     crashed_at_step: Some(0),
                     reopen_panic: None,
+                    recovery_writes: 0,
+                    second_crash_reached: false,
                 },
             );
         }
@@ -492,6 +510,9 @@ pub(crate) fn run_with_crash(
     let mut crashed_at_step = None;
     let mut reopen_panic = None;
     let mut restarted = false;
+    let mut second_pending = second_crash_at;
+    let mut second_crash_reached = false;
+    let mut recovery_writes = 0u64;
     let mut writes = 0u64;
     let max = sc.max_steps();
     while step < max {
@@ -510,6 +531,18 @@ pub(crate) fn run_with_crash(
             }
         });
         let finished = match r {
+            Err(p) if p.msg.contains(CRASH_MARK) && restarted => {
+                // the second crash, during the recovery: restart once more and go on
+                second_crash_reached = true;
+                disarm_crash();
+                let r2 = panics::catch(|| restart_all(&mut sim));
+                if let Err(p) = r2 {
+                    reopen_panic = Some(p);
+                    break;
+                }
+                idle = 0;
+                false
+            }
             Err(p) if p.msg.contains(CRASH_MARK) => {
                 crashed_at_step = Some(step);
                 writes = writes_seen();
@@ -525,6 +558,7 @@ pub(crate) fn run_with_crash(
         if finished {
             if restarted {
                 converged = true;
+                recovery_writes = writes_seen();
                 step += 1;
                 break;
             }
@@ -534,6 +568,8 @@ pub(crate) fn run_with_crash(
             // process restart: drop everything, reopen, reconnect
             disarm_crash();
             restarted = true;
+            // write points of the recovery are counted from here; a second crash may be armed
+            arm_crash(second_pending.take());
             let r2 = panics::catch(|| restart_all(&mut sim));
             if let Err(p) = r2 {
                 reopen_panic = Some(p);
@@ -543,8 +579,22 @@ pub(crate) fn run_with_crash(
             if let Some(d) = crashed_at_step.and_then(|s| map.get(&s)) {
                 let r3 = panics::catch(|| apply_dev(sc, &mut sim, d));
                 if let Err(p) = r3 {
-                    panic = Some(p);
-                    break;
+                    if p.msg.contains(CRASH_MARK) {
+                        // the second crash hit the repeated call: restart and repeat it once more
+                        second_crash_reached = true;
+                        disarm_crash();
+                        let r4 = panics::catch(|| {
+                            restart_all(&mut sim);
+                            apply_dev(sc, &mut sim, d)
+                        });
+                        if let Err(p) = r4 {
+                            panic = Some(p);
+                            break;
+                        }
+                    } else {
+                        panic = Some(p);
+                        break;
+                    }
                 }
             }
             idle = 0;
@@ -560,6 +610,8 @@ pub(crate) fn run_with_crash(
             writes,
             crashed_at_step,
             reopen_panic,
+            recovery_writes,
+            second_crash_reached,
         },
     )
 }
